@@ -15,7 +15,7 @@ PRIM, SUBS = 'rsa1024a', ['rsa1024b', 'rsa2048b', 'rsa2048a']
 PW = 'usage passphrase'
 
 
-def build_key(pflags, subflags, secret=True, newer=None, second_uid=None, uid_names=None, unhashed_flags=None):
+def build_key(pflags, subflags, secret=True, newer=None, second_uid=None, uid_names=None, unhashed_flags=None, stranger=None):
     """Reference-written key. subflags: list of flag values (None = no key-flags subpacket).
     newer: optional (index, flags): a second, more recent binding (index >= 0) or self-certification (index -1) with other flags.
     second_uid: flags of a second identity."""
@@ -58,6 +58,12 @@ def build_key(pflags, subflags, secret=True, newer=None, second_uid=None, uid_na
         out += binding(fl)
         if newer and newer[0] == i:
             out += binding(newer[1], at=K.T0 + 5000, extra=nx)
+        if stranger and stranger[0] == i:
+            # the same key material is also bound under somebody else's certificate, and that (newer, valid) binding signature has found its way onto this
+            # subkey: it is not a self-signature of this key and grants or withdraws nothing here
+            other = K.raw('rsa2048b', K.T0)
+            hashed = rsig.sp_created(K.T0 + 9000) + rsig.sp_issuer_fpr(rkeys.fingerprint(other)) + (wire.subpacket(27, bytes([stranger[1]])) if stranger[1] is not None else b'')
+            out += wire.packet(2, rsig.make(other, 0x18, 8, hashed, rsig.sp_issuer(rkeys.keyid(other)), {'key': rkeys.public_body(other), 'subkey': sbody}))
     return bytes(out), prim, subs
 
 
@@ -105,6 +111,8 @@ class Prop(object):
         u.append(('users', {}))
         for pi in range(len(PRIMARY_SETS)):
             u.append(('unhashed', {'p': pi}))
+        for a in range(len(FLAGSETS)):
+            u.append(('stranger', {'own': a}))
         u.append(('preconditions', {}))
         for first in LIVE_MENU:
             u.append(('live', {'first': first, 'depth': 3 if tier == 'quick' else 4}))
@@ -319,6 +327,24 @@ class Prop(object):
             self._decrypt_each(r, blob, prim, subs, label, dict(case, only=list(combo)))
         r.dim('primary', pname)
         r.samples.append({'primary': pname, 'subkeys': [[FLAGSETS[i][0] for i in c] for c in combos[:3]]})
+        return r
+
+    def c_stranger(self, case):
+        """A subkey that also carries a newer subkey-binding signature issued by ANOTHER key (the same material bound under someone else's certificate,
+        merged by a key server or appended to the file): for every pair (flags granted by the own primary, flags in the stranger's binding) the
+        capabilities are those the own primary granted."""
+        r = Res()
+        oname, own = FLAGSETS[case['own']]
+        for sname, st in FLAGSETS:
+            if st == own:
+                continue
+            if case.get('only') is not None and case['only'] != sname:
+                continue
+            blob, prim, subs = build_key(0x01, [own, 0x20], stranger=(0, st))
+            label = 'first subkey bound with flags %s by its primary, and with flags %s by a newer binding of another key' % (oname, sname)
+            self._ops(r, blob, prim, subs, [0x01, own, 0x20], label, {'part': 'stranger'}, dict(case, only=sname), forms=('public', 'private'), enforce_opts=(True,))
+        r.dim('own', oname)
+        r.samples.append({'own_flags': oname})
         return r
 
     def c_unhashed(self, case):
